@@ -114,8 +114,13 @@ func (l *listener) listenLoop() {
 				conn := newStreamWrapper(stream, stream.LocalAddr(), stream.RemoteAddr(), wg)
 				select {
 				case <-l.closeCh:
+					// nobody can accept it any more: release its reference on the session
+					_ = conn.Close()
 					return
 				case l.backlog <- conn:
+					if atomic.LoadUint32(&l.closed) == 1 {
+						l.drainBacklog()
+					}
 				}
 			}
 		}()
@@ -124,6 +129,9 @@ func (l *listener) listenLoop() {
 
 // accept gets connections from the backlog channel
 func (l *listener) Accept() (net.Conn, error) {
+	if atomic.LoadUint32(&l.closed) == 1 {
+		return nil, errors.New("listener is closed")
+	}
 	select {
 	case conn := <-l.backlog:
 		return conn, nil
@@ -150,7 +158,21 @@ func (l *listener) Close() (err error) {
 	}
 	l.sessions = map[*Session]*sync.WaitGroup{}
 	l.mu.Unlock()
+	l.drainBacklog()
 	return
+}
+
+// drainBacklog closes the conns which were queued for Accept when the listener was closed,
+// they hold a reference on their session which nobody else can release.
+func (l *listener) drainBacklog() {
+	for {
+		select {
+		case conn := <-l.backlog:
+			_ = conn.Close()
+		default:
+			return
+		}
+	}
 }
 
 // Addr is forwarded to the raw listener
